@@ -16,7 +16,9 @@ check('C08',
            'the correctly rounded value of the exact binary expansion of v (either neighbour on an exact tie); the produced text parsed by fast_atof, '
            'Field<fp_type>(const char*), (f8String) and set_from_raw must be bit-equal to glibc strtod(text). '
            'Lattice: N*10^-p and (N+1/2)*10^-p for N <= K, p = 0..9; the same around W*10^p for 16 anchor integers W (1 .. 2^31); exact binary '
-           'fractions n/2^k and W + n/2^k; specials (0, -0, denormal min, DBL_MIN, values next to 2^31); each with both 1-ulp neighbours and both signs.',
+           'fractions n/2^k and W + n/2^k; specials (0, -0, denormal min, DBL_MIN, values next to 2^31); each with both 1-ulp neighbours and both signs. '
+           'The float part runs under ASan/UBSan with a thin neighbourhood of 2^31 (jtop, kbitstop: values above INT_MAX run in a forked worker because the '
+           'unchanged tree overflows a signed int there); part float-top covers that neighbourhood (anchors 2^31-2, 2^31-1, 2^31) with large bounds without sanitizers.',
       level_note='Integers: complete in the thorough tier (all 2^32 values). Floats: exhaustive over the stated lattice only (the space of doubles below '
                  '2^31 is ~2^62); the claim is every rounding decision point k*10^-p, (k+1/2)*10^-p, n/2^k within the bounds, not every double. '
                  'Trusted: glibc snprintf("%.1074f") as exact expansion (cross-checked per case against "%.*f"), glibc strtod as correctly rounded parser, '
